@@ -769,6 +769,13 @@ def rule_siblings(env, shared):
             # `c.then_some(v)` is None or Some(v), like the match it replaces (the condition is judged by ENDGUARD / COMPLETE)
             if x[0] == "call" and x[1] == "bool::then_some" and len(x[2]) == 2:
                 return ("phi", (("agg", "std::option::Option::None", ()), ("agg", "std::option::Option::Some", (x[2][1],))))
+            # `Some(v).filter(c)` is None or Some(v) as well
+            if x[0] == "call" and x[1] == "Option::filter" and len(x[2]) == 2:
+                rc = x[2][0]
+                while rc[0] == "ref":
+                    rc = rc[1]
+                if rc[0] == "agg" and rc[1].endswith("Option::Some") and rc[2]:
+                    return ("phi", (("agg", "std::option::Option::None", ()), rc))
             # the rest of the source as a reservation amount: `L - c` under the guard c < L is saturating_sub(L, c)
             if x[0] == "atomic" and x[1] == "fetch_add" and len(x) > 3:
                 def ss(y):
